@@ -539,13 +539,13 @@ def core_run(R, exe, cfg, mods, env, D, budget, walks, L, seed, maxpay=1, worker
     return e1e2(R, "CoreMC.tla", cfg, tag, core_canon(mods, maxpay, nkeys), exe, e, D, budget, walks, L, seed, workers=workers, timeout=timeout)
 
 
-def core_sim(R, exe, name, num, depth, seed, workers=8, timeout=1500):
+def core_sim(R, exe, name, num, depth, seed, workers=8, timeout=1500, suffix=""):
     """Configurations too large to enumerate: TLC's simulation mode samples behaviours of Core.tla (monitors checked on every sampled
     state), each sampled behaviour is replayed into the real code and completed to a clean state where the sampled graph has a way."""
     import glob
     mods, env = CORE_CFGS[name]
     cfg = "Core_mc_%s.cfg" % name
-    tag = "Core_mc_%s.sim" % name
+    tag = "Core_mc_%s.sim%s" % (name, suffix)
     d = vplib.rundir("sim." + tag)
     res = vplib.tlc("CoreMC.tla", cfg, workers=workers, simulate=max(1, num // workers), depth=depth, timeout=timeout, seed=seed,
                     metadir=os.path.join(d, "md"), simfile=os.path.join(d, "t"))
@@ -666,7 +666,9 @@ def core_check(prop, tier, seed, quick_cfgs, thorough_cfgs, rule, Dq=5, Dt=7, bu
             R, exe, "Core_mc_%s.cfg" % name, mods, env, Dq if quick else Dt, (budget_q if quick else budget_t) // 2,
             1500 if quick else 100000, 40, seed, maxpay=mp, workers=2, suffix=".col"))
     for name in sim_cfgs:
-        tasks.append(lambda name=name: core_sim(R, exe, name, 1600 if quick else 40000, 40 if quick else 60, seed, workers=4))
+        # thorough: several rounds of a size the graph-table builder handles, each with its own seed
+        for rnd in range(1 if quick else 12):
+            tasks.append(lambda name=name, rnd=rnd: core_sim(R, exe, name, 1600 if quick else 4000, 40 if quick else 60, seed + 1000 * rnd, workers=4, suffix="" if quick else ".r%d" % rnd))
     vplib.parallel(tasks, max_workers=4)
     R.rule = ("programs = paths of the dumped TLC graph of Core.tla (configs: %s) whose edges are public API calls made from the top "
               "level or from inside callbacks and callback returns; every program is completed to a clean state (context released, "
@@ -682,31 +684,31 @@ def core_check(prop, tier, seed, quick_cfgs, thorough_cfgs, rule, Dq=5, Dt=7, bu
 @check("C01")
 def c01(prop, tier, seed):
     return core_check(prop, tier, seed, ["life", "lifec", "ps2q"], ["life", "lifec", "ps2q", "ctx", "perm", "pub2"],
-                      "Compared after every step: module states, registered count, running_modules, callback kind/module/order, return codes.")
+                      "Compared after every step: module states, registered count, running_modules, callback kind/module/order, return codes.", sim_cfgs=["mixb"])
 
 
 @check("C07")
 def c07(prop, tier, seed):
     return core_check(prop, tier, seed, ["ctx", "ctxp", "ctxc"], ["ctx", "ctxp", "ctxc", "life", "lifec"],
-                      "Focus: context register/deregister/finalize/loop from top level and from callbacks, persistent and not.")
+                      "Focus: context register/deregister/finalize/loop from top level and from callbacks, persistent and not.", sim_cfgs=["mixb"])
 
 
 @check("C15")
 def c15(prop, tier, seed):
     return core_check(prop, tier, seed, ["perm"], ["perm"],
-                      "Focus: replaceable/persistent/denied modules, restricted calls from callbacks at nesting depth 2.", Dq=5, Dt=6)
+                      "Focus: replaceable/persistent/denied modules, restricted calls from callbacks at nesting depth 2.", Dq=5, Dt=6, sim_cfgs=["mixb"])
 
 
 @check("C02")
 def c02(prop, tier, seed):
     return core_check(prop, tier, seed, ["ps2q", "pub2", "bc2", "batch"], ["ps2q", "pub2", "bc2", "batch", "ps3", "ps2"],
-                      "Compared: mailbox lengths, events handed to handlers (payload, sender, topic, system flag), payload release by the library.")
+                      "Compared: mailbox lengths, events handed to handlers (payload, sender, topic, system flag), payload release by the library.", sim_cfgs=["mix"])
 
 
 @check("C08")
 def c08(prop, tier, seed):
     return core_check(prop, tier, seed, ["ps2q", "batch", "bc2"], ["ps2q", "batch", "bc2", "ps2", "ps3"],
-                      "Focus: two payloads in flight to one recipient, poison pill ordering, pause/resume, quit + flush.", Dq=6, Dt=8)
+                      "Focus: two payloads in flight to one recipient, poison pill ordering, pause/resume, quit + flush.", Dq=6, Dt=8, sim_cfgs=["mix"])
 
 
 @check("C19")
@@ -744,7 +746,7 @@ def c03(prop, tier, seed):
     return core_check(prop, tier, seed, ["fdev", "ps2q", "subos", "kev", "kevl", "tsk", "rearm"], ["fdev", "ps2q", "subos", "kev", "kevl", "tsk", "rearm", "ps3", "pub2"],
                       "Focus: events of descriptor / timer / pubsub / signal / path / pid / task sources reach their owner with the registration userdata only while RUNNING; one-shot removal; poll batches of several sources in every order; errno left behind by callbacks; loop ends only on quit / no running module. "
                       "Configurations marked .loop are replayed a second time in loop mode: the loop is driven by blocking m_ctx_loop() calls (top-level steps executed from inside the wrapped epoll_wait, the stopping dispatch being what m_ctx_loop does before returning the quit code) and must show the same deliveries, states and return code.",
-                      Dq=5, Dt=7, loop_cfgs=["ps2q", "fdev", "life"])
+                      Dq=5, Dt=7, loop_cfgs=["ps2q", "fdev", "life"], sim_cfgs=["mix"])
 
 
 @check("C20")
@@ -868,11 +870,15 @@ def c14(prop, tier, seed):
     # (b) independence: concurrent contexts each conform to the single-context spec, no unsynchronised access (TSan)
     for name in (["ps2q"] if quick else ["ps2q", "life", "fdev", "pub2"]):
         tsan_threads(R, name, 4 if quick else 8, 2000 if quick else 40000, seed)
+    # ... and the library's own threads: task sources (pool threads run the user's function, store its result in the source and
+    # notify the loop) replayed by one thread under TSan: whatever a task thread shares with the loop must be synchronised
+    tsan_threads(R, "tsk", 1, 3000 if quick else 60000, seed)
     R.exhaustive = False
     R.rule = ("(a) programs over Core_mc_foreign: lifecycle calls from the owner interleaved with every module operation attempted from a foreign "
               "thread (with / without a context of its own) on modules in every state: permission error, projection unchanged; (b) %s threads, "
               "each with its own context, replay random programs of the pub/sub configuration(s) concurrently, each thread comparing its own "
               "observations with the single-context spec after every step, under ThreadSanitizer; (c) inventory of writable static storage in "
-              "the library objects against spec/SharedState.tla. non-trivial = every program" % (4 if quick else 8))
-    R.assumptions = ["TSan observes the schedules the run happened to take", "task sources (thread pool) are not used in the threaded replay"]
+              "the library objects against spec/SharedState.tla; (d) the task configuration (pool threads of the library running gated user functions) "
+              "replayed by one thread under ThreadSanitizer. non-trivial = every program" % (4 if quick else 8))
+    R.assumptions = ["TSan observes the schedules the run happened to take", "task sources are replayed by a single replaying thread (one context) next to the library's pool threads"]
     return R.finish()
